@@ -106,8 +106,16 @@ func c15observe(c *ctx, cfg c15cfg, lim c15lim) (row c15row) {
 	start := time.Date(2030, 1, 2, 3, 4, 5, 0, time.UTC)
 	var b strings.Builder
 	b.WriteString("scenario: scn\nlimits:\n")
-	b.WriteString(fmt.Sprintf("  max-duration: %dms\n  concurrency: %d\n  max-iterations: %d\n  max-failures: %d\n  max-failures-rate: %d\n  ignore-dropped: %v\n",
-		lim.MaxDur, lim.Conc, lim.MaxIter, lim.MaxF, lim.MaxFR, lim.Ignore))
+	// the two failure tolerances are optional: every third config leaves one of them out (it then means 0, which is what
+	// `lim` - the expected run options - holds; the other one keeps its value)
+	b.WriteString(fmt.Sprintf("  max-duration: %dms\n  concurrency: %d\n  max-iterations: %d\n", lim.MaxDur, lim.Conc, lim.MaxIter))
+	if !(lim.MaxF == 0 && lim.MaxIter%3 == 1) {
+		b.WriteString(fmt.Sprintf("  max-failures: %d\n", lim.MaxF))
+	}
+	if !(lim.MaxFR == 0 && lim.MaxIter%3 == 2) {
+		b.WriteString(fmt.Sprintf("  max-failures-rate: %d\n", lim.MaxFR))
+	}
+	b.WriteString(fmt.Sprintf("  ignore-dropped: %v\n", lim.Ignore))
 	if cfg.HasStart {
 		b.WriteString("schedule:\n  stage-start: " + start.Format(time.RFC3339) + "\n")
 	}
@@ -316,7 +324,13 @@ func init() {
 				b := cum[c.rng.Intn(len(cum))]
 				cfg.NowOff = b + []int{-1, 0, 1, -500, 500, -100000, 100000}[c.rng.Intn(7)]
 			}
-			lim := c15lim{Conc: cfg.LimConc, MaxIter: c.rng.Intn(1000), MaxDur: 1000 * (1 + c.rng.Intn(100)), MaxF: c.rng.Intn(10), MaxFR: c.rng.Intn(100), Ignore: c.rng.Intn(2) == 0}
+			lim := c15lim{Conc: cfg.LimConc, MaxIter: c.rng.Intn(1000), MaxDur: 1000 * (1 + c.rng.Intn(100)), MaxF: 1 + c.rng.Intn(9), MaxFR: 1 + c.rng.Intn(99), Ignore: c.rng.Intn(2) == 0}
+			switch lim.MaxIter % 3 { // see c15observe: the tolerance left out of the file is expected to be 0
+			case 1:
+				lim.MaxF = 0
+			case 2:
+				lim.MaxFR = 0
+			}
 			w.write(c15observe(c, cfg, lim))
 		}
 		fmt.Println("c15 observations:", w.n)
